@@ -11,6 +11,7 @@ mod glide;
 mod graphrun;
 mod lfo;
 mod midi;
+mod params;
 mod quant;
 mod ribbon;
 mod util;
@@ -58,6 +59,7 @@ fn main() {
                 "quant" => quant::record(driver, seed, thorough, &mut out),
                 "ribbon" => ribbon::record(driver, seed, thorough, &mut out),
                 "glide" => glide::record(driver, seed, thorough, &mut out),
+                "params" => params::record(driver, seed, thorough, &mut out),
                 _ => usage(),
             };
             let n = out.finish();
@@ -78,6 +80,7 @@ fn main() {
                 "quant" => quant::rerun(&lines, &mut out),
                 "ribbon" => ribbon::rerun(&lines, &mut out),
                 "glide" => glide::rerun(&lines, &mut out),
+                "params" => params::rerun(&lines, &mut out),
                 _ => usage(),
             }
             out.finish();
